@@ -202,6 +202,7 @@ func (x *Exec) seqUpdateFacts(nv, old, i, v Term) Term {
 	qi := T(q, SInt)
 	x.W.Facts = append(x.W.Facts, fmt.Sprintf("(forall ((%s Int)) (! (=> (not (= %s %s)) (= %s %s)) :pattern (%s)))", q, q, i.S, x.W.SeqAt(c, qi).S, x.W.SeqAt(old, qi).S, x.W.SeqAt(c, qi).S))
 	x.prefixFacts(c, old, i)
+	x.sumUpdateFacts(c, old, i)
 	return c
 }
 
